@@ -168,6 +168,132 @@ def g2():
                  Curve(F2, 0, params.bls_b2()), params.BLS_HEFF_G2)
 
 
+# ---------------------------------------------------------------------------------------------
+# inputs u whose simplified-SWU image lies in the kernel of the isogeny (the isogeny's rational map
+# is undefined there; RFC 9380 appendix E / section 4: the result is the identity).  Found by
+# factoring the x-denominator of the isogeny over the field and inverting SWU; every candidate is
+# kept only if this model's map_to_curve says "identity".
+def _ptrim(F, a):
+    while a and F.is_zero(a[-1]):
+        a = a[:-1]
+    return a
+
+
+def _pmulmod(F, a, b, f):
+    out = [F.zero] * (len(a) + len(b) - 1) if a and b else []
+    for i, x in enumerate(a):
+        if F.is_zero(x):
+            continue
+        for j, y in enumerate(b):
+            out[i + j] = F.add(out[i + j], F.mul(x, y))
+    return _pmod(F, out, f)
+
+
+def _pmod(F, a, f):
+    a = _ptrim(F, list(a))
+    d = len(f) - 1
+    li = F.inv(f[-1])
+    while len(a) - 1 >= d and a:
+        c = F.mul(a[-1], li)
+        sh = len(a) - 1 - d
+        for i, y in enumerate(f):
+            a[sh + i] = F.sub(a[sh + i], F.mul(c, y))
+        a = _ptrim(F, a)
+    return a
+
+
+def _pgcd(F, a, b):
+    a, b = _ptrim(F, list(a)), _ptrim(F, list(b))
+    while b:
+        a, b = b, _pmod(F, a, b)
+    if a:
+        li = F.inv(a[-1])
+        a = [F.mul(x, li) for x in a]
+    return a
+
+
+def _ppowmod(F, base, n, f):
+    out, b = [F.one], _pmod(F, base, f)
+    while n:
+        if n & 1:
+            out = _pmulmod(F, out, b, f)
+        b = _pmulmod(F, b, b, f)
+        n >>= 1
+    return out
+
+
+def _pdiv_exact(F, a, b):
+    a = list(a)
+    q = [F.zero] * (len(a) - len(b) + 1)
+    li = F.inv(b[-1])
+    for k in range(len(q) - 1, -1, -1):
+        c = F.mul(a[k + len(b) - 1], li)
+        q[k] = c
+        for i, y in enumerate(b):
+            a[k + i] = F.sub(a[k + i], F.mul(c, y))
+    assert not _ptrim(F, a)
+    return q
+
+
+def poly_roots(F, q, f):
+    """all roots in F (a field with q elements) of the polynomial f (ascending coefficients)"""
+    f = _ptrim(F, [F.el(c) for c in f])
+    if len(f) <= 1:
+        return []
+    xq = _ppowmod(F, [F.zero, F.one], q, f)
+    xq_minus_x = list(xq) + [F.zero] * max(0, 2 - len(xq))
+    xq_minus_x[1] = F.sub(xq_minus_x[1], F.one)
+    g = _pgcd(F, f, _ptrim(F, xq_minus_x))
+    roots, todo, a = [], [g] if len(g) > 1 else [], 0
+    while todo:
+        h = todo.pop()
+        if len(h) == 2:
+            roots.append(F.neg(F.div(h[0], h[1])))
+            continue
+        while True:
+            a += 1
+            t = _ppowmod(F, [F.el(a) if not isinstance(F.zero, tuple) else F.el((a, a * a + 1)), F.one], (q - 1) // 2, h)
+            t = list(t) + [F.zero] * max(0, 1 - len(t))
+            t[0] = F.sub(t[0], F.one)
+            d = _pgcd(F, h, _ptrim(F, t))
+            if 1 < len(d) < len(h):
+                todo += [d, _pdiv_exact(F, h, d)]
+                break
+            assert a < 200
+    return roots
+
+
+@functools.lru_cache(None)
+def kernel_inputs(group):
+    """sorted list of all u with map_to_curve(u) == identity for the G1 ("E1") / G2 ("E2") suite"""
+    S = g1() if group == "E1" else g2()
+    F = S.F
+    q = P if group == "E1" else P * P
+    A, B, Z = F.el(S.A), F.el(S.B), F.el(S.Z)
+    xs = set(poly_roots(F, q, S.iso[1])) | set(poly_roots(F, q, S.iso[3]))
+    two, four = F.el(2), F.el(4)
+    cands = set()
+    for xk in xs:
+        t = F.mul(xk, F.div(F.neg(A), B))  # x_k = (-B/A) * t
+        ws = []
+        # x1(u) = x_k:  1 + 1/(w^2 + w) = t  with w = Z u^2
+        if not F.is_zero(F.sub(t, F.one)):
+            c = F.inv(F.sub(t, F.one))
+            disc = F.sqrt(F.add(F.one, F.mul(four, c)))
+            if disc is not None:
+                ws += [F.div(F.add(F.neg(F.one), sg), two) for sg in (disc, F.neg(disc))]
+        # x2(u) = w * x1(u) = x_k:  w^2 + (1 - t) w + (1 - t) = 0
+        b1 = F.sub(F.one, t)
+        disc = F.sqrt(F.sub(F.mul(b1, b1), F.mul(four, b1)))
+        if disc is not None:
+            ws += [F.div(F.add(F.neg(b1), sg), two) for sg in (disc, F.neg(disc))]
+        for w in ws:
+            ru = F.sqrt(F.div(w, Z))
+            if ru is not None:
+                cands |= {ru, F.neg(ru)}
+    return sorted(u for u in cands if S.map_to_curve(u)[0] is None), len(xs)
+
+
 def hash_to_curve(suite, msg, dst, hname="sha256"):
     S = g1() if suite == "G1" else g2()
     u0, u1 = hash_to_field(msg, 2, dst, 1 if suite == "G1" else 2, hname)
